@@ -1,5 +1,6 @@
 import ObiVerif.Model.Kmer
 import ObiVerif.Model.DeBruijn
+import ObiVerif.Model.DeBruijnCov
 import ObiVerif.Driver.Util
 /-! line protocol for C19 (see `harness/c19.go` for the case and result formats) -/
 namespace ObiVerif.Driver.C19
@@ -34,25 +35,62 @@ def parseRead (r : String) : Option (List UInt8 × Nat) :=
     if c < 1 ∨ c > 1000000 then none else pure (s.map lower, c)
   | _ => none
 
-def runGraph (k : Nat) (reads : List (List UInt8 × Nat)) : String :=
-  let g := reads.foldl (fun g r => g.push r.1 r.2) (makeGraph k)
+def consStr : ConsOut → String
+  | .err => "err"
+  | .panic => "panic"
+  | .fuel => "fuel"
+  | .seq s => hex s
+
+/-- the result of the `g` and `gf` operations on a graph value (the queue of `HaviestPath` is the transcription
+of `container/heap`: `heaviestPathH`) -/
+def showGraph (k : Nat) (g : Graph) : String :=
   let sorted := g.nodes.foldr insSorted []
   let nodeStr := joinC (sorted.map fun (x, w) =>
     s!"{hexNat x}:{w}:{hexNat (maskOf (g.succ x) (· % 4))}:{hexNat (maskOf ((g.previouses x).getD []) (fun y => (y / 4 ^ (k - 1)) % 4))}")
   match g.hasCycle with
   | none => s!"n={nodeStr} cyc=fuel"
   | some cyc =>
-    let pathStr := match g.heaviestPath hpFuel with
+    let pathStr := match g.heaviestPathH hpFuel with
       | .nil => "nil"
       | .panic => "panic"
       | .fuel => "fuel"
       | .path p => ",".intercalate (p.map hexNat)
-    let consStr := match g.longestConsensus hpFuel with
-      | .err => "err"
-      | .panic => "panic"
-      | .fuel => "fuel"
-      | .seq s => hex s
-    s!"n={nodeStr} cyc={if cyc then 1 else 0} path={pathStr} cons={consStr}"
+    s!"n={nodeStr} cyc={if cyc then 1 else 0} path={pathStr} cons={consStr (g.longestConsensusH hpFuel)}"
+
+def buildGraph (k : Nat) (reads : List (List UInt8 × Nat)) : Graph :=
+  reads.foldl (fun g r => g.push r.1 r.2) (makeGraph k)
+
+def runGraph (k : Nat) (reads : List (List UInt8 × Nat)) : String := showGraph k (buildGraph k reads)
+
+/-- `gf`: `FilterMinWeight(min)` on the graph of the reads, then everything `g` shows, `MaxWeight` and `Len` -/
+def runFilter (k : Nat) (min : Int) (reads : List (List UInt8 × Nat)) : String :=
+  let g := (buildGraph k reads).filterMinWeight min
+  s!"mw={g.maxWeight} len={g.len} {showGraph k g}"
+
+def hexNat? (s : String) : Option Nat :=
+  s.toList.foldlM (fun acc c => (hexVal c).map fun d => acc * 16 + d) 0
+
+/-- the bits of a finite positive `float64` as `m × 2^e` -/
+def floatOfBits (bits : Nat) : Option (Nat × Int) :=
+  let sign : Nat := bits / 2 ^ 63
+  let ex : Nat := bits / 2 ^ 52 % 2048
+  let fr : Nat := bits % 2 ^ 52
+  if sign ≠ 0 ∨ ex = 2047 ∨ bits = 0 ∨ bits ≥ 2 ^ 64 then none
+  else if ex = 0 then some (fr, -1074) else some (2 ^ 52 + fr, (ex : Int) - 1075)
+
+/-- `gc`: `LongestConsensus(id, min_cov)`, `min_cov > 0` given by its bits.  `obs` is what the real code returned:
+it is only used when `obistats.Mode` has several possible answers leading to different outcomes — the model
+then checks that `obs` is one of them. -/
+def runCov (k : Nat) (bits : Nat) (obs : String) (reads : List (List UInt8 × Nat)) : String :=
+  match floatOfBits bits with
+  | none => "bad-op"
+  | some (m, e) =>
+    let g := buildGraph k reads
+    let cands := (g.consensusCovCands hpFuel m e).map consStr
+    let c := match cands with
+      | [c] => c
+      | _ => if cands.contains obs then obs else "!" ++ "|".intercalate cands
+    s!"mw={g.maxWeight} len={g.len} cons={c}"
 
 def run (line : String) : String :=
   match words line with
@@ -76,6 +114,14 @@ def run (line : String) : String :=
         | .ok m =>
           let ks := normalizedKmerSlice m (s.map lower)
           s!"k={m.kmersize} sp={m.sparseAt} {joinC (ks.map fun x => hexNat x ++ "/" ++ bytesStr (kmerAsString m x))}"
+    | _, _, _ => "bad-op"
+  | "gf" :: k :: mn :: reads =>
+    match k.toNat?, mn.toInt?, reads.mapM parseRead with
+    | some k, some mn, some reads => if k < 1 ∨ k > 32 then "bad-op" else runFilter k mn reads
+    | _, _, _ => "bad-op"
+  | "gc" :: k :: bits :: obs :: reads =>
+    match k.toNat?, hexNat? bits, reads.mapM parseRead with
+    | some k, some bits, some reads => if k < 1 ∨ k > 32 then "bad-op" else runCov k bits obs reads
     | _, _, _ => "bad-op"
   | "g" :: k :: reads =>
     match k.toNat?, reads.mapM parseRead with
